@@ -3,7 +3,7 @@ from __future__ import annotations
 import ast, re
 from fractions import Fraction as F
 from ..core import expr as X
-from ..core.interp import Interp, FuncRef, Opaque
+from ..core.interp import Interp, FuncRef, Opaque, concrete
 from ..core.report import AnalysisError
 from ..frontend.pyfront import Repo
 from .common import need_func, make_eq, eps_mask
@@ -111,7 +111,9 @@ def run(chk):
     a = X.atom('a', 'complex')
 
     def bh(itp, st, v, frm):
-        return False          # a != 0, finite arguments
+        if isinstance(v, X.Node) and v.op == 'cmp' and v.val in ('==', '!=') and any(concrete(a_) == 0 for a_ in v.args):
+            return v.val == '!='          # generic base: its parts are not exactly zero
+        return None
 
     def ch(itp, fr_, args, kw, e, frm):
         if isinstance(fr_, FuncRef) and fr_.node.name == 'cf_clog': return X.fn('CLOG', X.lift(args[0]))
